@@ -36,7 +36,7 @@ CHECKS["C01"] = cfg(
     min={"quick": {"verified": 800, "bitflips": 50000, "verified:Compact": 100, "verified:Flattened": 100, "verified:General": 100, "verified:Document": 60, "nontrivial": 100},
          "thorough": {"verified": 10000, "bitflips": 500000, "nontrivial": 300}},
     thorough=[{"flavour": "checked", "shards": 16, "timeout": 3000},
-              {"flavour": "asan", "shards": 8, "timeout": 3000, "args": {"scale": 60}}],
+              {"flavour": "asan", "tier": "quick", "shards": 8, "timeout": 3000, "args": {"scale": 1000}}],
     assumptions=["completeness (valid tokens are accepted) is counted, not demanded: the statement is 'verified only if'",
                  "ed25519/p256/k256 crates called directly are the reference for signature validity"],
 )
@@ -49,7 +49,7 @@ CHECKS["C08"] = cfg(
                    "verified": 5000, "negative_verifications": 5000, "nontrivial": 400},
          "thorough": {"produced": 100000, "verified": 100000, "negative_verifications": 100000, "nontrivial": 1000}},
     thorough=[{"flavour": "checked", "shards": 16, "timeout": 3000},
-              {"flavour": "asan", "shards": 8, "timeout": 3000, "args": {"scale": 50}}],
+              {"flavour": "asan", "tier": "quick", "shards": 8, "timeout": 3000, "args": {"scale": 1000}}],
     assumptions=["an encoder refusing an input is counted, not a violation (the statement is about tokens that were produced)",
                  "detached payloads are handed to the decoder in the form they were signed (base64url text when b64 is true)",
                  "custom header parameter names are non-registered names"],
@@ -98,7 +98,7 @@ CHECKS["C19"] = cfg(
                    "json_roundtrips": 30000, "oneorset_checks": 10000, "oneorset_rejected_duplicates": 1000, "oneormany_checks": 5000, "nontrivial": 30000000},
          "thorough": {"oset_exhaustive_sequences": 1000000000, "oset_closure_steps": 50000, "oset_rand_steps": 3000000, "nontrivial": 1000000000}},
     thorough=[{"flavour": "checked", "shards": 16, "timeout": 3000},
-              {"flavour": "miri", "shards": 4, "timeout": 3000, "args": {"scale": 2}}],
+              {"flavour": "miri", "tier": "quick", "shards": 16, "timeout": 3600, "args": {"scale": 1}}],
     assumptions=["iter_mut_unchecked/head_mut/tail_mut/clear are documented as invariant-breaking and not part of the histories",
                  "replace(cur, upd) with cur absent and upd's key present may return true (replaced in place) or false (unchanged)"],
 )
@@ -112,8 +112,8 @@ CHECKS["C15"] = cfg(
          "thorough": {"sign_ok": 50000, "race_single_winner": 50000, "lin_checked": 100000, "lin_checked_with_overlap": 10000,
                       "sh_seq_ops": 3000, "sh_sign_ok": 800, "sh_cross_key_verifications": 5000, "sh_race_single_winner": 300, "sh_lin_checked": 200}},
     thorough=[{"flavour": "checked", "shards": 16, "timeout": 3000},
-              {"flavour": "tsan", "shards": 8, "timeout": 3000, "args": {"scale": 100}},
-              {"flavour": "miri", "shards": 8, "timeout": 3000, "args": {"scale": 5, "parts": 6}},
+              {"flavour": "tsan", "tier": "quick", "shards": 8, "timeout": 3000, "args": {"scale": 1000}},
+              {"flavour": "miri", "tier": "quick", "shards": 16, "timeout": 3600, "args": {"scale": 5, "parts": 6}},
               {"flavour": "checked", "package": "vhs", "bin": "c15s", "shards": 16, "timeout": 3000}],
     assumptions=["the public_key argument of sign only needs to carry alg/curve",
                  "Stronghold is exercised by the separate stronghold stage (thorough) when available; Miri cannot cross its FFI",
@@ -136,7 +136,7 @@ CHECKS["C16"] = cfg(
     technique="runtime monitoring: decision-table oracle over harness-assembled SD-JWTs, disclosures (own SHA-256 digests) and KB-JWTs; accept <=> all conditions; panic monitor",
     level_text="SD-JWT credentials (0-4 concealed claims + nested concealed claim, decoys, every disclosed subset, forged/foreign/duplicated/garbage/reordered disclosures, _sd_alg forms) and KB-JWTs (typ, kid/method id, scope, signature by another key, sd_hash over other concatenations, nonce, aud, iat at the inclusive window edges and a day either side of now) are assembled by the harness so each condition is true or false by construction; validate_credential / validate_key_binding_jwt must accept exactly when all hold, return the original credential with exactly the disclosed claims restored, and never panic.",
     min={"quick": {"cred_accepted": 300, "cred_rejected": 600, "kb_accepted": 200, "kb_rejected": 700, "kb_rejected:signature": 100, "kb_rejected:sd_hash": 60,
-                   "cred_rejected:disclosure-bound-to-signed-digest": 60, "distinct:condition_vectors": 60},
+                   "cred_rejected:disclosure-bound-to-signed-digest": 60, "two_issuers_accepted": 40, "two_issuers_rejected": 60, "distinct:condition_vectors": 60},
          "thorough": {"cred_accepted": 6000, "kb_accepted": 4000, "kb_rejected": 15000, "distinct:condition_vectors": 100}},
     assumptions=["a duplicated disclosure may be refused or accepted (latitude)",
                  "the typ spelling is judged by one dedicated signature (known finding: the dependency's constant is ' kb+jwt'); all other KB scenarios treat the library's own constant and 'kb+jwt' as the right type",
@@ -161,7 +161,7 @@ CHECKS["C04"] = cfg(
                    "remove_method_some": 5000, "insert_service_ok": 4000, "attach_true": 8000, "detach_true": 3000, "start_accepted": 2000, "walks": 2000, "nontrivial": 500},
          "thorough": {"op_steps": 10000000, "distinct_exact": 10000000, "state_checks": 500000, "walks": 100000}},
     thorough=[{"flavour": "checked", "shards": 16, "timeout": 3000},
-              {"flavour": "miri", "shards": 4, "timeout": 3000, "args": {"scale": 2}}],
+              {"flavour": "miri", "tier": "quick", "shards": 16, "timeout": 3600, "args": {"scale": 1}}],
     assumptions=["collections are compared as multisets (order is not part of the statement)",
                  "for genuinely ambiguous queries any matching entry is accepted",
                  "remove_method returning None may still drop dangling references with exactly that id (documented behaviour)",
@@ -189,7 +189,7 @@ CHECKS["C12"] = cfg(
                    "status_oob": 5, "nontrivial": 12300},
          "thorough": {"table_cases": 40000, "set_false_with_set_neighbours": 100000, "oob_probes": 50000, "status_matching": 9000, "nontrivial": 41000}},
     thorough=[{"flavour": "checked", "shards": 16, "timeout": 3000},
-              {"flavour": "miri", "shards": 4, "timeout": 3000, "args": {"scale": 3}}],
+              {"flavour": "miri", "tier": "quick", "shards": 16, "timeout": 3600, "args": {"scale": 1}}],
     assumptions=["MSB-first bit order as in the W3C draft", "any Err variant is accepted where an error is required",
                  "a refused un-revoke may return Ok as long as the entry stays set"],
 )
@@ -202,8 +202,8 @@ CHECKS["C20"] = cfg(
                    "handler_calls_checked": 7000, "jwk_public_accepted": 3000, "jwk_docs_checked": 5000, "threaded_cases": 80, "distinct:orders": 250, "nontrivial": 500},
          "thorough": {"multi_cases": 400000, "multi_ok": 100000, "orders_enumerated_exhaustively": 150000, "jwk_docs_checked": 150000, "threaded_cases": 6000}},
     thorough=[{"flavour": "checked", "shards": 16, "timeout": 3000},
-              {"flavour": "tsan", "shards": 8, "timeout": 3000, "args": {"scale": 100}},
-              {"flavour": "miri", "shards": 4, "timeout": 3000, "args": {"scale": 2}}],
+              {"flavour": "tsan", "tier": "quick", "shards": 8, "timeout": 3000, "args": {"scale": 1000}},
+              {"flavour": "miri", "tier": "quick", "shards": 16, "timeout": 3600, "args": {"scale": 1}}],
     assumptions=["fragment '#0' and the exact relationship set of a did:jwk document are not demanded by the statement (counted)",
                  "liveness only as bounded progress: every gated future completes once all gates are open"],
 )
@@ -216,7 +216,7 @@ CHECKS["C10"] = cfg(
                    "reparse_checks": 800, "pairs_checked": 50000, "pairs_equal_across_routes": 300, "jwk_decoded": 3, "random_strings": 16000, "nontrivial": 10000},
          "thorough": {"exhaustive_strings": 100000000, "core_accepted_clean": 130000, "url_accepted_clean": 390000, "pairs_checked": 1700000, "nontrivial": 700000}},
     thorough=[{"flavour": "checked", "shards": 16, "timeout": 3000},
-              {"flavour": "miri", "shards": 4, "timeout": 3000, "args": {"scale": 1}}],
+              {"flavour": "miri", "tier": "quick", "shards": 16, "timeout": 3600, "args": {"scale": 1}}],
     assumptions=["rejecting a valid DID/DID URL is counted (url_rejected_ref_valid), not a violation: the statement constrains accepted strings",
                  "HEXDIG is taken case-insensitively; a leading ':' or '::' inside a method-specific-id is valid ABNF"],
 )
@@ -241,7 +241,7 @@ CHECKS["C05"] = cfg(
                    "presentations_validated": 100, "sd_jwt_validated": 80, "kb_jwt_validated": 70, "jws_verified": 100, "nontrivial": 250},
          "thorough": {"evaluations": 8000000, "accepted": 1200000, "accessor_calls": 10000000, "cases_valid": 300000, "nontrivial": 250}},
     thorough=[{"flavour": "checked", "shards": 16, "timeout": 3000},
-              {"flavour": "asan", "shards": 8, "timeout": 3000, "args": {"scale": 100}}],
+              {"flavour": "asan", "tier": "quick", "shards": 8, "timeout": 3000, "args": {"scale": 1000}}],
     assumptions=["sd_jwt_vc, jpt-bbs-plus, client-only and Stronghold code is not compiled into the harness and not covered",
                  "inputs are capped at 64 KiB and JSON nesting depth 100; allocation aborts from caller-chosen sizes are out of scope",
                  "documented infallible constructors that expect() (IotaDID::new with an unvalidated NetworkName, from_alias_id) are not parsers and are excluded"],
